@@ -174,7 +174,7 @@ func runC18(c *Ctx) {
 	R.Rule("C18.R4", "whole value: a regexp used as an acceptor (MatchString / FindString compared with its argument) is anchored on both sides: L_match(r) = L_match(^(?:r)$); regexps used only as ReplaceAll patterns are exempt here and covered by the composite rule")
 	R.Rule("C18.R5", "no hostile fragment: for every acceptor regexp L_match(r) ∩ H = ∅, H being the hostile language of spec/css_hostile.json (backslash, angle brackets, @, expression(, javascript:/vbscript:/data: at a scheme position, url( not followed by http); the shortest witness is reported")
 	R.Rule("C18.R6", "keyword lists: every string literal in a []string keyword list of css/handlers.go is free of hostile fragments (in() compares whole split parts with these literals)")
-	R.Rule("C18.R7", "composite (thorough tier): the language of every registered handler, computed by abstract interpretation of its body over exact regular-language schemas, has an empty intersection with H")
+	R.Rule("C18.R7", "composite: the language of every registered handler, computed by abstract interpretation of its body over exact regular-language schemas, has an empty intersection with H")
 	R.Assume(TrustGo, TrustRegexp, "membership of accepted values in the CSS specification's value space for the property is NOT decided (no CSS grammar available offline); only the inert half of the statement is")
 	env, err := newCSSEnv(c)
 	if err != nil {
@@ -187,11 +187,8 @@ func runC18(c *Ctx) {
 	c18Registry(c)
 	c18Leaves(c, env)
 	c18Provenance(c)
-	if c.Thorough() {
-		c18Composite(c, env)
-	} else {
-		R.Notes = append(R.Notes, "C18.R7 (handler languages) runs in the thorough tier")
-	}
+	c18Helpers(c)
+	c18Composite(c, env)
 }
 
 func c18Registry(c *Ctx) {
